@@ -18,6 +18,8 @@ RULE = (
     'of its fully parenthesised text, calls included; model_description of a text is the same before and after '
     'design_matrices on that text; inside a call or subscript no name, number, string or Python literal can be '
     "replaced by another one without changing the model (sentences without '-' and with at most one '|'). "
+    'Later: the right-hand side wrapped as a whole, sentences with 10-12 terms, odd subscripts, trailing '
+    'commas (not sentences), the list handed out by .terms emptied by the caller. '
 )
 ASSUMPTIONS = [
     "reference tokenizer / precedence table (fmc/refmodel/grammar.py) is the documented grammar",
